@@ -32,7 +32,7 @@ func main() {
 		hx.GenProbe(2000, len(os.Args) > 2 && os.Args[2] == "vm")
 		return
 	}
-	needDriver := map[string]bool{"c11": true, "c12": true, "c17": true, "c16": true, "evalprobe": true, "evalone": true, "c01": true, "c02": true, "c09": true, "c10": true, "c13": true, "c14": true, "c15": true, "c20": true, "c18": true, "c19": true, "c04": true, "c03": true, "c05": true}
+	needDriver := map[string]bool{"c11": true, "c12": true, "c17": true, "c16": true, "evalprobe": true, "evalone": true, "c01": true, "c02": true, "c09": true, "c10": true, "c13": true, "c14": true, "c15": true, "c20": true, "c18": true, "c19": true, "c04": true, "c03": true, "c05": true, "c07": true}
 	var d *hx.Driver
 	if needDriver[os.Args[1]] {
 		var err error
@@ -93,6 +93,10 @@ func main() {
 		rep = hx.RunC03(d)
 	case "c05":
 		rep = hx.RunC05(d)
+	case "c06":
+		rep = hx.RunC06(d)
+	case "c07":
+		rep = hx.RunC07(d)
 	default:
 		fmt.Fprintln(os.Stderr, "unknown component", os.Args[1])
 		os.Exit(2)
